@@ -243,6 +243,27 @@ def run(prog: Program) -> Results:
             res.add("R-C04-3", (fk, "incomplete in-place layer write-back", ",".join(sorted(missing))), prog.funcs[fk].loc(),
                     f"{fk} updates a ScopeState in place but never writes {sorted(missing)}: that slot keeps the value of the "
                     f"layer that used to be outermost")
+    # ---------------------------------------------------------------- R-C04-4
+    from sa.effects import memoised
+    r4 = res.rule("R-C04-4", "no aliasing through a memo: an object returned by a memoised function (functools.lru_cache / cache) is "
+                  "the same object for every caller; none is stored into a document, where a later edit below one binding would "
+                  "also change every other binding (and document) that received it", floor=len(ROOTS))
+    memo = sorted(f.key for f in prog.all_functions() if memoised(f))
+    seen4 = set()
+    for r_ in ROOTS:
+        sm = eng.summarize(r_)
+        r4.instances += 1
+        recs = list(sm.shared_into_doc)
+        r4.ob(not recs, {"root": r_, "memoised_functions_in_package": memo, "stored_into_document": [x[2][:60] for x in recs]})
+        for fk, node, text, origin in recs:
+            key = (fk, "memoised object stored into the document", origin[len("G:cache:"):])
+            if key in seen4:
+                continue
+            seen4.add(key)
+            res.add("R-C04-4", key, prog.funcs[fk].loc(node),
+                    f"{fk}: `{text[:90]}` stores the result of memoised `{origin[len('G:cache:'):]}` into the document: every edit "
+                    f"given the same argument inserts the very same mutable object, so an edit below one of those bindings changes "
+                    f"bindings it does not address")
     res.tables.append("allowed write classes enumerated in sa/rules/c04.py:classify (derived from the mechanisms the property names)")
     res.assumptions = ["byte extents outside the target are the renderer's behaviour and are not decided here"]
     return res
